@@ -94,6 +94,7 @@ PROPS = {
         "diffs": [
             {"cmd": "bt", "scenario": "c17", "quick": 120, "thorough": 3000},
             {"cmd": "bt", "scenario": "c03big", "quick": 12, "thorough": 200},
+            {"cmd": "bt", "scenario": "c17big", "quick": 2, "thorough": 30, "no_corpus": True},
             {"cmd": "bt", "scenario": "c14", "quick": 40, "thorough": 800, "no_corpus": True},
         ],
         "facts": ["bt.iterator_result_discarded_in"],
